@@ -91,7 +91,7 @@ def configs(ctx):
         return [('K1', _k1(), 4, 1, _cellprop.CellSpec, 2.0),
                 ('K2', _k2(), 3, 1, _cellprop.CellSpec, 1.0),
                 ('M1', _m1(), 3, 0, _masterprop.MasterSpec, 1.0),
-                ('M3', _m3(), 6, 0, _masterprop.MasterSpec, 1.0)]
+                ('M3', _m3(), 5, 0, _masterprop.MasterSpec, 1.0)]
     return [('K1', _k1(), 6, 2), ('K2', _k2(), 6, 1),
             ('M1', _m1(), 5, 1, _masterprop.MasterSpec),
             ('M3', _m3(), 9, 0, _masterprop.MasterSpec)]
